@@ -8,6 +8,6 @@ GenNext == /\ Next
                           THEN Append(delays, IF await' = FALSE THEN 0 ELSE IF due' = NEVER THEN NEVER ELSE due' - now')
                           ELSE delays
 GenSpec == GenInit /\ [][GenNext]_<<vars, delays>>
-Emit == (now = Horizon \/ phase \in {"failed", "timedout"}) =>
-           PrintT(<<"SCHED", ToJson([stall |-> stall, delays |-> delays, horizon |-> Horizon, traffic |-> <<2, 3, 7>>])>>)
+Emit == (now = Horizon \/ phase = "timedout" \/ (phase = "failed" /\ nconn = MaxConns)) =>
+           PrintT(<<"SCHED", ToJson([stall |-> (stall /\ nconn = 1), delays |-> delays, horizon |-> Horizon, conns |-> MaxConns, traffic |-> <<2, 3, 7>>])>>)
 =============================================================================
